@@ -297,6 +297,18 @@ namespace
         bool operator!=(const FInt &o) const { return v != o.v; }
     };
     int FInt::throw_after = 0;
+    // an element with a constructor from an initializer list next to its ordinary ones (like the standard containers):
+    // emplace(args...) must build T(args...), never T{args...}
+    struct ILInt
+    {
+        int v = 0;
+        ILInt() {}
+        ILInt(long long x) : v((int)x) {}
+        ILInt(long long a, long long b) : v((int)(a * 1000 + b)) {}
+        ILInt(std::initializer_list<long long> l) : v(-1000000) { for (long long x : l) v -= (int)x; }
+        bool operator==(const ILInt &o) const { return v == o.v; }
+        bool operator!=(const ILInt &o) const { return v != o.v; }
+    };
     // ---------------------------------------------------------------- a ring with more than 65535 slots (C API)
     // blocks of tens of thousands of bytes written, read and moved in bulk across the wrap, against a std::deque
     struct HugeRingWorld : World
@@ -492,6 +504,13 @@ namespace
                                     while (hist.size() > (size_t)cap) hist.pop_front();
                                 }
                                 FInt::throw_after = 0;
+                            }
+                            else if constexpr (std::is_same<T, ILInt>::value)
+                            {
+                                long long a = (long long)mod(arg(o, 1), 97), b = (long long)mod(arg(o, 1), 89);
+                                if (kind == 0) rg.push(v);
+                                else if (a & 1) { rg.emplace(a, b); v = ILInt(a, b); probe("emplace_with_two_constructor_arguments"); }
+                                else { rg.emplace(a); v = ILInt(a); }
                             }
                             else
                             {
@@ -973,12 +992,13 @@ int main(int argc, char **argv)
     TypedRingWorld<char> tc(true, "igris::ring<char>");
     TypedRingWorld<int> ti(false, "igris::ring<int>");
     TypedRingWorld<FInt> tf(false, "igris::ring<throwing element>");
+    TypedRingWorld<ILInt> til(false, "igris::ring<element with an initializer-list constructor>");
     CyclicWorld cy;
     Harness h;
     h.property = "C03";
     HugeRingWorld hw;
     static StringQueueWorld sq;
-    h.worlds = {&cw, &tc, &ti, &cy, &tf, &hw, &sq};
+    h.worlds = {&cw, &tc, &ti, &cy, &tf, &hw, &sq, &til};
     h.real = {"igris/datastruct/ring.h", "igris/container/ring.h", "igris/datastruct/ring_counter.h", "igris/container/cyclic_buffer.h",
               "igris/container/unbounded_array.h"};
     h.stub = {"producer / consumer / DMA tasks with stalls (op-level interleaving from the plan)", "SimAlloc memory behind the Alloc parameter and the C ring's buffer",
